@@ -45,14 +45,15 @@ def gen_cases(tier, seed):
             # a user callback other than a plan function fails: an observer notification, the retry decorator, transform_physical
             out.append({"seed": s, "mode": "callback_fault", "n": r.randint(1, 14), "W": r.choice([1, 2, 4, 8]), "sched": r.choice(["default", "random"]),
                         "where": r.choice(["obs_total", "obs_running", "obs_completed", "obs_failed", "retry_wrap", "retry_call", "transform_raise", "transform_none",
-                                           "html_output_raises", "html_path_missing_dir", "html_output_raises", "html_output_slow"]),
+                                           "html_output_raises", "html_path_missing_dir", "html_output_raises", "html_output_slow", "html_output_raises_once", "html_output_raises_once"]),
                         "j": r.choice([1, 1, 2, 3, 5]), "kind": r.choice(["exc", "exc", "base"]), "cfg": {"out": r.choice(["all", "sinks"])},
                         "max_errors": r.choice([0, 0, 2, None])})
             continue
         if q < 0.07:
             # the operating system refuses a new thread / the caller is interrupted inside Thread.start(): run must still end and leave nothing behind
-            out.append({"seed": s, "mode": "thread_start_fault", "n": r.randint(1, 12), "W": r.choice([1, 2, 3, 4, 8]), "sched": r.choice(["default", "random"]),
+            out.append({"seed": s, "mode": "thread_start_fault", "n": r.randint(1, 12) if s % 3 else r.randint(10, 30), "W": r.choice([1, 2, 3, 4, 8]), "sched": r.choice(["default", "random"]),
                         "k": r.choice([1, 1, 2, 3, 5]), "kind": r.choice(["refused", "refused", "kbi_after_start", "kbi_before_start"]),
+                        "queued": r.choice([None, None, 1, 2, 3, 5]),
                         "cfg": {"out": r.choice(["all", "sinks"])},
                         # half of them: the calls already in flight when the pool is torn down fail afterwards and exceed the error limit
                         **({"faults": {"p": r.choice([0.5, 1.0]), "kinds": ["exc"]}, "max_errors": r.choice([0, 0, 1])} if r.random() < 0.5 else {})})
@@ -79,6 +80,13 @@ def gen_cases(tier, seed):
         if r.random() < 0.1:
             d["display"] = "html"
         out.append(d)
+    for i in range(max(40, n // 40)):
+        # the pool is torn down (a worker cannot be started / the caller is interrupted while starting them) with a FEW ready calls still queued
+        s = env.seed_for(seed, ID, tier, "teardown_queued", i)
+        r = random.Random(env.seed_for(s, "descriptor"))
+        out.append({"seed": s, "mode": "thread_start_fault", "n": 4, "W": r.choice([3, 4, 6, 8]), "sched": r.choice(["default", "default", "random"]),
+                    "k": r.choice([2, 3, 4, 5]), "kind": r.choice(["refused", "kbi_after_start", "kbi_before_start"]), "queued": r.choice([1, 2, 2, 3, 4]),
+                    "cfg": {"out": "all"}})
     for i in range(max(6, n // 150)):
         # hundreds of failing calls in one run that is allowed to go on, with a bundled display attached (which remembers only so many
         # exceptions): it ends like any other run
@@ -157,7 +165,19 @@ def run_thread_start_fault(desc):
     with W:
         threading.Thread.start = start
         try:
-            R = plainrun.execute(desc, record_args=False, hang_watch=False, pre=lambda nid, att: time.sleep(0.001))
+            # (calls of 1 ms; in every third case 8 ms and a wide plan, so that ready calls are still QUEUED when the pool is torn down)
+            slow_ = 0.008 if desc["seed"] % 3 == 0 else 0.001
+            ir_ = None
+            if desc.get("queued") is not None:
+                # independent calls of 10 ms: the workers that did get started are busy and exactly `queued` ready calls sit in the queue when the
+                # pool is torn down (a sentinel pushed onto a queue that still holds a few nodes)
+                slow_ = 0.01
+                ir_ = irmod.IR()
+                cs_ = [ir_.add("call", fname=f"f{i % 5}") for i in range(max(1, desc["k"] - 1 + desc["queued"]))]
+                ir_.output = irmod.X("list", [irmod.ref(c.id) for c in cs_])
+                ir_.meta["family"] = "independent"
+            R = plainrun.execute(dict(desc, family="layers" if desc["seed"] % 3 == 0 else desc.get("family")) if desc["seed"] % 3 == 0 else desc,
+                                 record_args=False, hang_watch=False, pre=lambda nid, att: time.sleep(slow_), ir=ir_)
         finally:
             threading.Thread.start = real_start
     H = R.H
@@ -279,6 +299,13 @@ def run_callback_fault(desc):
         if where == "html_output_raises":
             def out(b):
                 raise OSError(28, "No space left on device")
+            obs_f = lambda: with_counting_event(up.HtmlProgressObserver(out, initial_update_delay=0.0005, min_update_interval=0.0005, max_update_interval=0.002))
+        elif where == "html_output_raises_once":
+            # a transient fault: only the very first write of the page fails
+            def out(b):
+                state["outs"] = state.get("outs", 0) + 1
+                if state["outs"] == 1:
+                    raise OSError(5, "Input/output error (transient)")
             obs_f = lambda: with_counting_event(up.HtmlProgressObserver(out, initial_update_delay=0.0005, min_update_interval=0.0005, max_update_interval=0.002))
         elif where == "html_output_slow":
             # a display whose output takes much longer than its longest update interval (slow mount, busy front end): run still returns only
